@@ -9,7 +9,7 @@
    timer (context.WithTimeout, Client.Timeout, ResponseHeaderTimeout) the timer may fire before
    the peer reached its stall point: the allowed set is the union over all earlier positions. *)
 From Coq Require Import List Bool Arith.
-From ReqV Require Export Lib.Bytes Model.Lifecycle Model.RetryLife Model.LifecycleH2 Model.LifecycleH3 Model.Bystander.
+From ReqV Require Export Lib.Bytes Model.Lifecycle Model.RetryLife Model.LifecycleH2 Model.LifecycleH3 Model.Bystander Model.BackoffLife.
 Import ListNotations.
 
 Inductive ocall := OResp | OErr (e : err).
@@ -49,6 +49,7 @@ Inductive c08_case :=
 | QueueCase (evs : list qlabel) (served : list nat) (idle : nat)
 | WindowCase (w : Z) (frames : list Z) (credited : Z)
 | ShareCase (c : cause) (b_ok : bool)
+| BackoffCase (ls : list blabel) (o_err : ocall) (o_seen : nat)
 (* retry layer: labels up to and including the injection; observed: the call's error and the
    number of attempts that reached the peer *)
 | RetryCase (zero : bool) (max : option nat) (ls : list rlabel) (o_err : ocall) (o_seen : nat).
@@ -346,6 +347,16 @@ Definition c08_check (k : c08_case) : bool :=
   | ShareCase c b_ok =>
       match shrun true shinit [SCancelA c; SDialFails; SBSees; SBDialOk] with
       | Some s => match s_b s with BRet None => b_ok | _ => negb b_ok end
+      | None => false
+      end
+  | BackoffCase ls oe seen =>
+      match brun true binit ls with
+      | Some s =>
+          existsb (fun f => match b_phase f with
+                            | PbRet (Some e) => ocall_eqb (OErr e) oe && Nat.eqb (b_net f) seen
+                            | PbRet None => ocall_eqb OResp oe && Nat.eqb (b_net f) seen
+                            | _ => false
+                            end) (bfinish 6 true s)
       | None => false
       end
   | RetryCase zero max ls oe seen =>
